@@ -25,10 +25,17 @@ type c14Cfg struct {
 	GenSel       bool `json:"generateSelector"`
 	IgnoreStatus bool `json:"ignoreStatusChanges"`
 	Finalize     bool `json:"finalizeHook"`
+	// NsChild: the cluster-scoped parent has namespaced children (owner references from a
+	// namespaced object to a cluster-scoped owner are legal)
+	NsChild bool `json:"namespacedChildOfClusterParent,omitempty"`
 }
 
 func (c c14Cfg) id() string {
-	return fmt.Sprintf("c14-cl%v-gs%v-is%v-fin%v", c.Cluster, c.GenSel, c.IgnoreStatus, c.Finalize)
+	id := fmt.Sprintf("c14-cl%v-gs%v-is%v-fin%v", c.Cluster, c.GenSel, c.IgnoreStatus, c.Finalize)
+	if c.NsChild {
+		id += "-nschild"
+	}
+	return id
 }
 
 type c14World struct {
@@ -101,14 +108,19 @@ func TestVerif_C14_Events(t *testing.T) {
 		for _, gs := range []bool{false, true} {
 			for _, is := range []bool{false, true} {
 				for _, fin := range []bool{false, true} {
-					c := c14Cfg{cl, gs, is, fin}
-					if !sim.WantCase(c.id()) {
-						continue
+					for _, nsChild := range []bool{false, true} {
+						if nsChild && !cl {
+							continue
+						}
+						c := c14Cfg{cl, gs, is, fin, nsChild}
+						if !sim.WantCase(c.id()) {
+							continue
+						}
+						t.Run(c.id(), func(t *testing.T) {
+							t.Parallel()
+							runC14(t, c)
+						})
 					}
-					t.Run(c.id(), func(t *testing.T) {
-						t.Parallel()
-						runC14(t, c)
-					})
 				}
 			}
 		}
@@ -121,7 +133,7 @@ func runC14(t *testing.T, c c14Cfg) {
 	rep.Begin("C14", id)
 	uid := uniqueID("q")
 	childKind := "Widget"
-	if c.Cluster {
+	if c.Cluster && !c.NsChild {
 		childKind = "ClusterWidget"
 	}
 	sc := &scenario{ID: uid, ClusterParent: c.Cluster, GenerateSelector: c.GenSel, Finalize: c.Finalize, ParentSelector: true,
